@@ -5,11 +5,14 @@ from vlib.util import LEAN
 
 def setup():
     """build the Lean library, the proofs and the driver from the files on disk"""
-    try:
-        from py2lean import translate
-        translate.regenerate_all()
-    except ImportError:
-        pass
+    # regenerate every translated Lean file from the current /repo sources
+    import importlib
+    for name, fn in (('py2lean.route', 'regenerate'), ('py2lean.translate', 'regenerate_all')):
+        try:
+            mod = importlib.import_module(name)
+        except ImportError:
+            continue
+        getattr(mod, fn)()
     ok, log = framework.lake_build([])
     sys.stdout.write(log[-3000:])
     return 0 if ok else 2
